@@ -30,6 +30,8 @@ Stage "pump" (one evaluation = one fresh environment):
     handback-while-owned owned after the pump      -> none
     handback-duplicate   never more than one, at any time
     handback-on-release  the owner's later resume() puts exactly one
+    second-take-accepted  a flow that has an owner is never handed to a second one (two addons' hooks; a session-level and a
+                         region-level waiter on the same flow): take() must refuse
     second-resume-accepted / preempt-before-resume-accepted  the guards must refuse (AssertionError) and queue nothing
     later-flow-affected  two further events of another flow are each handed back exactly once, whatever happened before
     queue-consumption    every pump consumes exactly one event
@@ -115,6 +117,13 @@ class InjectedFault(Exception):
 
 
 # ---------------------------------------------------------------------------------------------------- actors
+def _record_take(board: List[Tuple[str, str]], name: str):
+    """A take() succeeded: 'took' if the flow was nobody's, 'took-again' if somebody already owns it."""
+    acts = [a for _n, a in board]
+    owned_now = "took" in acts and "resumed" not in acts
+    board.append((name, "took-again" if owned_now else "took"))
+
+
 class ScriptedAddon:
     """Addon object whose hooks act only on (flow id, event) it was armed for."""
 
@@ -154,7 +163,7 @@ class ScriptedAddon:
             raise
         self.took, self.held = True, flow
         self.log.append("took")
-        self.board.append((self.name, "took"))
+        _record_take(self.board, self.name)
 
     def _resume(self, flow, label="resumed"):
         try:
@@ -285,7 +294,7 @@ class Subscriber:
                 raise
             self.took, self.held = True, flow
             self.log.append("took")
-            self.board.append((self.name, "took"))
+            _record_take(self.board, self.name)
 
     def release(self, label="resumed"):
         try:
@@ -332,7 +341,7 @@ class Waiter:
         if self.take is not False:
             self.took = True
             self.log.append("took")
-            self.board.append((self.name, "took"))
+            _record_take(self.board, self.name)
 
     def release(self, label="resumed"):
         try:
@@ -664,6 +673,8 @@ def evaluate_pump_case(case) -> Tuple[List[Dict[str, Any]], Any, bool]:
         account("pump", 0 if was_owned else 1)
         if any(a == "resumed-again" for _n, a in w.board):
             bad("second-resume-accepted", f"a second resume() of the same flow did not assert (board {w.board})")
+        if any(a == "took-again" for _n, a in w.board):
+            bad("second-take-accepted", f"a flow that already had an owner was handed to a second one (board {w.board})")
         if any(a == "preempted-early" for _n, a in w.board):
             bad("preempt-before-resume-accepted", f"preempt() on a flow nobody had resumed did not assert (board {w.board})")
         # ---- two later events of another flow; deferred actions in between
@@ -1319,6 +1330,12 @@ def cases_for(tier: str):
         for wt in WAITERS:
             for b in ("ignore", "take_later1", "handled"):
                 cases.append(("pump",) + fl + ((wt,), b, "ignore"))
+    # stage 1f: a session-level and a region-level waiter on the same flow: only one of them can own it
+    for fl in core:
+        if fl[0] != "response":
+            continue
+        for pair in (("sess_wait", "reg_wait"), ("sess_async", "reg_async"), ("sess_wait", "reg_async"), ("sess_wait_notake", "reg_wait")):
+            cases.append(("pump",) + fl + (pair, "ignore", "ignore"))
     # stage 1e: waiters that timed out / were cancelled / were satisfied earlier must not own (or swallow) later flows
     for fl in flows:
         if fl[0] != "response":
